@@ -46,7 +46,10 @@ fn gen_base(rng: &mut Rng) -> (Scenario, String) {
         mode = "insert";
         sc.handlers = vec![];
         for _ in 0..rng.range(1, 3) {
-            let c = Content { s: rng.pick(INSERTS).to_string(), html: rng.bool(), stream: if rng.chance(1, 4) { rng.range(1, 3) as u8 } else { 0 }, fail_stream: false, utf8_chunks: 0 };
+            let stream = if rng.chance(1, 4) { rng.range(1, 3) as u8 } else { 0 };
+            // streamed as UTF-8 byte pieces, sometimes from a source truncated inside a character
+            let utf8_chunks = if stream > 0 && rng.bool() { if rng.bool() { 100 + rng.range(1, 3) as u8 } else { rng.range(2, 4) as u8 } } else { 0 };
+            let c = Content { s: rng.pick(INSERTS).to_string(), html: rng.bool(), stream, fail_stream: false, utf8_chunks };
             match rng.below(6) {
                 0 => sc.handlers.push(HandlerSpec::End { ops: vec![c] }),
                 1 => sc.handlers.push(HandlerSpec::Element { sel: "p".into(), ops: vec![ElOp::Before(c)] }),
